@@ -47,3 +47,38 @@ def hval_cases(rng, n, op="hval"):
     for size in (1000, 10000, 65536):
         cases.append(f"{op}\t{hexs('Subject')}\t{hexs(('é word ' * size)[:size])}")
     return cases
+
+
+def cdisp_cases(rng, n):
+    """Content-Disposition with a file name: every ASCII length 1..100 (folding windows of the RFC 2231 writer), names that need
+    quoted-pairs, non-ASCII names, random mixtures"""
+    cases = []
+    for k in ("attachment", "inline"):
+        for ln in range(1, 101):
+            cases.append(f"typed\tcdisp\t{k}\t{hexs(('file-%03d-' % ln + 'x' * 100)[:ln])}")
+        for nm in ['report "final".pdf', 'C:\\temp\\new.txt', 'x".txt; filename="evil.exe', '"', '\\', 'a"b\\c', 'semi;colon.txt', "it's", 'tab\tname',
+                   'résumé.pdf', '日本語.txt', 'a b c ' * 15, 'q"' * 12, 'trailing\\']:
+            cases.append(f"typed\tcdisp\t{k}\t{hexs(nm)}")
+    for _ in range(n):
+        fnm = "".join(rng.choice("abcdefgh-_. \"\\é;=*'%") for _ in range(rng.randint(1, 80)))
+        cases.append(f"typed\tcdisp\t{rng.choice(['attachment', 'inline'])}\t{hexs(fnm)}")
+    return cases
+
+
+def hdrs_cases(rng, n):
+    """insert / remove / get sequences on `Headers` with names that differ in letter case only"""
+    names = ["Subject", "subject", "SUBJECT", "X-A", "x-a", "To", "Comments", "Bcc", "BCC", "bcc"]
+    cases = []
+    for _ in range(n):
+        ops = []
+        for _ in range(rng.randint(1, 8)):
+            r = rng.random()
+            nmx = rng.choice(names)
+            if r < 0.6:
+                ops.append(f"i:{hexs(nmx)}:{hexs(text(rng, 4))}")
+            elif r < 0.8:
+                ops.append(f"r:{hexs(nmx)}")
+            else:
+                ops.append(f"g:{hexs(nmx)}")
+        cases.append("hdrs\t" + ";".join(ops))
+    return cases
